@@ -13,6 +13,7 @@ import PyGqlModel.Lemmas.PrintTokensDir
 import PyGqlModel.Lemmas.PrintLayExec
 import PyGqlModel.Lemmas.PrintMatchExec
 import PyGqlModel.Lemmas.PrintBlockLay
+import PyGqlModel.Lemmas.PrintStrip
 import PyGqlModel.Props.C01_parse
 namespace PyGql.Props.C03
 open PyGql PyGql.Ast PyGql.Parse PyGql.Spec PyGql.Print PyGql.PrintLex PyGql.PrintMatch PyGql.PrintTokens PyGql.Lex
@@ -151,24 +152,6 @@ def PrintParseStatement : Prop :=
     fl.noLocation = true → c.includeDescriptions = true → IndentOK c →
     lexAll x = .ok toks → parseDocument fl toks = .ok d →
     ∃ toks', lexAll (printDocument c d) = .ok toks' ∧ parseDocument fl toks' = .ok d
-
-/-- the descriptions the printer never prints (finding R4) removed -/
-def stripIV (d : InputValueDefinition) : InputValueDefinition := { d with description := none }
-def stripFD (d : FieldDefinition) : FieldDefinition :=
-  { d with description := none, arguments := d.arguments.map stripIV }
-def stripEV (d : EnumValueDefinition) : EnumValueDefinition := { d with description := none }
-def stripDef : Definition → Definition
-  | .objectTypeDefinition desc name ifs dirs fields loc => .objectTypeDefinition desc name ifs dirs (fields.map stripFD) loc
-  | .objectTypeExtension name ifs dirs fields loc => .objectTypeExtension name ifs dirs (fields.map stripFD) loc
-  | .interfaceTypeDefinition desc name dirs fields loc => .interfaceTypeDefinition desc name dirs (fields.map stripFD) loc
-  | .interfaceTypeExtension name dirs fields loc => .interfaceTypeExtension name dirs (fields.map stripFD) loc
-  | .enumTypeDefinition desc name dirs values loc => .enumTypeDefinition desc name dirs (values.map stripEV) loc
-  | .enumTypeExtension name dirs values loc => .enumTypeExtension name dirs (values.map stripEV) loc
-  | .inputObjectTypeDefinition desc name dirs fields loc => .inputObjectTypeDefinition desc name dirs (fields.map stripIV) loc
-  | .inputObjectTypeExtension name dirs fields loc => .inputObjectTypeExtension name dirs (fields.map stripIV) loc
-  | .directiveDefinition desc name args locations loc => .directiveDefinition desc name (args.map stripIV) locations loc
-  | d => d
-def stripMemberDescriptions (d : Document) : Document := { d with definitions := d.definitions.map stripDef }
 
 /-- THE STATEMENT MODULO MEMBER DESCRIPTIONS (what holds on today's code according to the correspondence and the direct
     oracle: every difference the oracle sees is a dropped member description) -/
